@@ -924,6 +924,8 @@ pub fn plan_c08(tier: &str, seed: u64) -> Plan {
                 format!("rename_right {a} "), format!("move_secret {a} {b}"), format!("move_secret 0 1"), format!("move_secret 1 0"),
                 format!("split_chain {a}"), format!("split_chain 0"), format!("split_chain 1"), format!("split_chain 2"),
                 format!("join_chains {a}"), format!("join_chains 0"),
+                format!("split_chain_rev {a}"), format!("split_chain_rev 0"), format!("split_chain_rev 1"), format!("split_chain_mid {a}"),
+                format!("split_chain_far {a}"), format!("split_chain_far 0"), format!("split_chain_app {a}"), format!("dup_secret {a}"),
                 format!("swap_secrets {a}"), format!("swap_secrets 0"), format!("drop_secret {a}"), format!("drop_secret 0"),
                 format!("shift_bytes {a} {}", 1 + rng.below(31)), format!("shift_bytes 0 1"),
                 format!("merge_into_name {a}"), format!("merge_into_name 0"), format!("merge_into_name 1"), "merge_broadcast".into(),
@@ -944,6 +946,6 @@ pub fn plan_c08(tier: &str, seed: u64) -> Plan {
         per_line: true,
         cases,
         exhaustive: false,
-        rule: format!("{n_cases} random small histories (keys for 5 policies incl. '*', 0..3 rekeys each followed by a refresh with keep: single and multiple rights, 1..4 revisions, classic and hybridised secrets); on every key version 44 tampering operators on the serialised form (reorder / drop / duplicate / rename rights, move / swap / drop secrets, shift bytes between a right's name and its secret, merge a chain into a name, merge the broadcast chain into its neighbour, move the last marker of the identifier into the first right's name or the first secret of the empty-named right into the identifier, flavour change with re-chunking, strip / flip / splice signature, flip / swap / splice id, splice a chain of another issued key, key of another authority, key issued by a replica of this master key) plus the untouched control; in half of the histories the access structure was edited and the master key not yet updated when the keys are presented; the real refresh_usk (both flags, on copies) is compared with the Lean byte-level MAC model and with the specification (only the issued key is accepted; nothing modified on rejection)"),
+        rule: format!("{n_cases} random small histories (keys for 5 policies incl. '*', 0..3 rekeys each followed by a refresh with keep: single and multiple rights, 1..4 revisions, classic and hybridised secrets); on every key version 52 tampering operators on the serialised form (reorder / drop / duplicate / rename rights, move / swap / drop secrets, shift bytes between a right's name and its secret, split a chain into two entries of the same name — in order, reversed, in the middle, apart —, duplicate a secret, merge a chain into a name, merge the broadcast chain into its neighbour, move the last marker of the identifier into the first right's name or the first secret of the empty-named right into the identifier, flavour change with re-chunking, strip / flip / splice signature, flip / swap / splice id, splice a chain of another issued key, key of another authority, key issued by a replica of this master key) plus the untouched control; in half of the histories the access structure was edited and the master key not yet updated when the keys are presented; the real refresh_usk (both flags, on copies) is compared with the Lean byte-level MAC model and with the specification (only the issued key is accepted; nothing modified on rejection)"),
     }
 }
